@@ -60,6 +60,11 @@ const (
 // key carries the type; the field is optional in the API).
 const untypedBit = 0x80000
 
+// otherTypeBit marks ids whose fee carries the OTHER fee type in its FeeType
+// field (a copy of the standard fee filed under data, say): the argument of
+// AddQuote / UpdateMinerFees names the fee, not the label inside it.
+const otherTypeBit = 0x40000
+
 // typeFieldAsWritten: a fee read through Fee() carries the FeeType field its
 // writer stored (empty for untyped ids), not something put there by a reader.
 func typeFieldAsWritten(f *bt.Fee, id int64) bool {
@@ -72,6 +77,8 @@ func typeFieldAsWritten(f *bt.Fee, id int64) bool {
 func mkFee(ft bt.FeeType, id int64) *bt.Fee {
 	if id&untypedBit != 0 {
 		ft = ""
+	} else if id&otherTypeBit != 0 {
+		ft = map[bt.FeeType]bt.FeeType{bt.FeeTypeStandard: bt.FeeTypeData, bt.FeeTypeData: bt.FeeTypeStandard}[ft]
 	}
 	return &bt.Fee{FeeType: ft, MiningFee: bt.FeeUnit{Satoshis: int(id & 0xfffff), Bytes: int(id>>20) + 1},
 		RelayFee: bt.FeeUnit{Satoshis: int(id&0xfffff) ^ 0x5a5a5, Bytes: int(id>>20) + 7}}
@@ -371,8 +378,11 @@ func c18FeeQuoteHistory(c *mon.Ctx, h *c18Hist) {
 				case 2, 3: // FeeQuote.AddQuote (only on the first free quote: the second one is written by whole documents only, see MarshalJSON below)
 					i := 0
 					id := newID()
-					if r.Bool() {
+					switch r.Intn(4) {
+					case 0, 1:
 						id |= untypedBit
+					case 2:
+						id |= otherTypeBit
 					}
 					fee := mkFee(t, id)
 					call := rec.tick()
@@ -468,8 +478,11 @@ func c18FeeQuoteHistory(c *mon.Ctx, h *c18Hist) {
 				case 12, 13: // FeeQuotes.UpdateMinerFees (known miners only, so that it is a plain write; "m4" once it has been added)
 					m := prng.Pick(r, []string{"m0", "m1", "m4", "m4"})
 					id := newID()
-					if r.Bool() {
+					switch r.Intn(4) {
+					case 0, 1:
 						id |= untypedBit
+					case 2:
+						id |= otherTypeBit
 					}
 					call := rec.tick()
 					_, err := fqs.UpdateMinerFees(m, t, mkFee(t, id))
